@@ -60,10 +60,25 @@ impl Printer {
                         e
                     );
                     matcher_io.set_exit_code(1);
+                } else {
+                    matcher_io.standard_output_failed(&e);
                 }
+                return;
             }
         }
-        out.flush().unwrap();
+        if let Err(e) = out.flush() {
+            if print_error_message {
+                let _ = writeln!(
+                    &mut stderr(),
+                    "Error writing {:?} for {}",
+                    file_info.path().to_string_lossy(),
+                    e
+                );
+                matcher_io.set_exit_code(1);
+            } else {
+                matcher_io.standard_output_failed(&e);
+            }
+        }
     }
 }
 
